@@ -16,11 +16,13 @@ import traceback
 ROOT = os.environ.get('VERIF_ROOT', '/verif')
 APPS = os.path.dirname(os.path.abspath(__file__))
 VH = os.path.join(ROOT, 'target/h/release/vh')
+OUT = os.environ.get('E4_OUT_DIR') or ROOT      # evidence/ and replays/ live here (scratch dir for mutation demos)
 KF_FILE = os.environ.get('VERIF_KF_FILE', os.path.join(ROOT, 'known_findings.json'))
 JOBS = int(os.environ.get('E4_JOBS', '32'))
 BLESS = os.environ.get('VERIF_BLESS', '') == '1'
 SEED = int(os.environ.get('VERIF_SEED', '0') or 0)
 MAX_LINES_PER_CLASS = 3
+WATCHDOG_S = 240
 
 RX_LAT, RX_LON = 35.0, -80.0
 BASE_ARGV = ['--lat=%s' % RX_LAT, '--long=%s' % RX_LON]
@@ -158,7 +160,18 @@ class Explorer:
         """Run all scripts (list). Violations are confirmed concurrently."""
         pending = []   # (script, first_result, [async1, async2])
         n = len(scripts)
-        for idx, res in self.pool.imap_unordered(_task, list(enumerate(scripts)), chunksize=1):
+        it = self.pool.imap_unordered(_task, list(enumerate(scripts)), chunksize=1)
+        got = 0
+        while got < n:
+            try:
+                idx, res = it.next(timeout=WATCHDOG_S)
+            except StopIteration:
+                break
+            except multiprocessing.TimeoutError:
+                self.machinery.append('no result from the worker pool for %d s (%d of %d scripts done): a worker died or hung'
+                                      % (WATCHDOG_S, got, n))
+                break
+            got += 1
             script = scripts[idx]
             self._account(script, res)
             if res['status'] == 'mach':
@@ -195,8 +208,15 @@ class Explorer:
         for d in s.get('screens', []):
             self.screens.add(d)
         if len(self.samples) < 6 and (self.ran % 97 == 1 or len(self.samples) < 2):
-            self.samples.append({'key': script.get('key'), 'argv': script.get('argv'), 'size': script.get('size'),
-                                 'steps': script.get('steps')[:12], 'outcome': oc})
+            def short(st):
+                st = dict(st)
+                if len(st.get('hex', '')) > 64:
+                    st['hex'] = st['hex'][:64] + '...(%d bytes)' % (len(st['hex']) // 2)
+                st.pop('cycle', None)
+                return st
+            self.samples.append({'key': script.get('key'), 'binary': script.get('binary'), 'argv': script.get('argv'),
+                                 'size': script.get('size'), 'steps': [short(x) for x in script.get('steps')[:14]],
+                                 'outcome': oc})
 
     def _known_match(self, script, v):
         k = (script.get('key'), v['observed'])
@@ -270,12 +290,16 @@ class Explorer:
                 cov.pop(k, None)
         ev = {'property_id': self.prop, 'tier': self.tier, 'seed': SEED, 'level': level, 'coverage': cov,
               'assumptions': assumptions, 'wall_s': round(wall, 2),
-              'violations': 0 if BLESS else nviol}
-        os.makedirs(os.path.join(ROOT, 'evidence'), exist_ok=True)
-        tmp = os.path.join(ROOT, 'evidence', '.%s.json.tmp' % self.prop)
+              'violations': nviol}
+        bad = check_evidence(ev)
+        if bad:
+            print('MACHINERY: evidence would not validate: %s' % bad)
+            self.machinery.append('evidence invalid: %s' % bad)
+        os.makedirs(os.path.join(OUT, 'evidence'), exist_ok=True)
+        tmp = os.path.join(OUT, 'evidence', '.%s.json.tmp' % self.prop)
         with open(tmp, 'w') as f:
             json.dump(ev, f, indent=1, sort_keys=True)
-        os.replace(tmp, os.path.join(ROOT, 'evidence', '%s.json' % self.prop))
+        os.replace(tmp, os.path.join(OUT, 'evidence', '%s.json' % self.prop))
         print('%s tier=%s scripts=%d events=%d outcomes=%d known=%d violations=%d flaky=%d machinery=%d wall=%.1fs'
               % (self.prop, self.tier, self.ran, self.events, len(self.outcomes), sum(self.known_hits.values()),
                  nviol, len(self.flaky), len(self.machinery), wall))
@@ -286,6 +310,38 @@ class Explorer:
         if self.machinery or self.flaky:
             return 2
         return 0
+
+
+def check_evidence(ev):
+    """the constraints of /root/.vp/EVIDENCE.schema.json that apply to the two levels used here (no jsonschema offline)"""
+    for k, t in (('property_id', str), ('tier', str), ('seed', int), ('level', str), ('coverage', dict), ('wall_s', (int, float))):
+        if not isinstance(ev.get(k), t):
+            return 'key %s missing or of the wrong type' % k
+    if ev['tier'] not in ('quick', 'thorough'):
+        return 'tier'
+    c = ev['coverage']
+    if not (isinstance(c.get('samples'), list) and c['samples']):
+        return 'coverage.samples must be a non-empty list'
+    if ev['level'] == 'fault_enumeration':
+        if not (isinstance(c.get('evaluations'), int) and c['evaluations'] >= 1):
+            return 'coverage.evaluations'
+        if not (isinstance(c.get('distinct_nontrivial'), int) and c['distinct_nontrivial'] >= 2):
+            return 'coverage.distinct_nontrivial must be >= 2'
+        if not isinstance(c.get('rule'), str):
+            return 'coverage.rule'
+    elif ev['level'] == 'model_checking':
+        for k in ('states', 'transitions'):
+            if not (isinstance(c.get(k), int) and c[k] >= 1):
+                return 'coverage.%s must be >= 1' % k
+        if not (isinstance(c.get('traces_validated_against_impl'), int) and c['traces_validated_against_impl'] >= 0):
+            return 'coverage.traces_validated_against_impl'
+    else:
+        return 'unexpected level %r' % ev['level']
+    if not isinstance(ev.get('assumptions'), list) or not all(isinstance(a, str) for a in ev['assumptions']):
+        return 'assumptions'
+    if not isinstance(ev.get('violations'), int):
+        return 'violations'
+    return None
 
 
 def load_known(prop):
@@ -336,7 +392,7 @@ def load_known(prop):
 
 
 def write_replay(prop, script, verdict, obs):
-    d = os.path.join(ROOT, 'replays', prop)
+    d = os.path.join(OUT, 'replays', prop)
     os.makedirs(d, exist_ok=True)
     name = digest16(prop, script.get('key', ''), json.dumps(script.get('steps'), sort_keys=True),
                     json.dumps(script.get('argv'))) + '.json'
